@@ -19,7 +19,7 @@ func init() {
 	register(&Rule{Name: "insert.together", Floor: 1,
 		Doc: "ProcessBlock records a block root in blockSlots only on paths that also create its node and index entry: after the write to blockSlots no path returns before indices is written (every reader relies on `blockSlots[r] = s  =>  indices[{r, s}] exists`); a refusal in between leaves a root that answers GetSlot/ClosestToSlot although it was never inserted and blocks its later re-delivery",
 		Run: ruleInsertTogether})
-	register(&Rule{Name: "finality.pairing", Floor: 4,
+	register(&Rule{Name: "finality.pairing", Floor: 1,
 		Doc: "process_justification_and_finalization: each finality rule tests the epoch of one of the two old justified checkpoints against the current epoch and finalizes THAT checkpoint (`oldX.Epoch + k == currentEpoch` => `toFinalize = &oldX`); the four rules are bits[1:4]/prev+3, bits[1:3]/prev+2, bits[0:3]/cur+2, bits[0:2]/cur+1",
 		Run: ruleFinalityPairing})
 	register(&Rule{Name: "make.append", Floor: 20,
@@ -280,7 +280,13 @@ func ruleFinalityPairing(c *Ctx) {
 		}
 		return true
 	})
-	if n != 4 {
+	switch {
+	case n == 4:
+		c.ok("ProcessEpochJustification.rules", fd.Pos(), "the spec's four finality rules: %v", offsets)
+	case n == 0:
+		// written some other way (a table of rules walked by a loop): nothing here to pair
+		c.unm("ProcessEpochJustification.rules", fd.Pos(), "the finality rules are not written as tests of `<old checkpoint>.Epoch + k == current epoch` that this rule can pair with what they finalize")
+	default:
 		c.bad("ProcessEpochJustification.rules", fd.Pos(), "expected the spec's four finality rules (prev+3, prev+2, cur+2, cur+1), found %d: %v", n, offsets)
 	}
 }
